@@ -200,6 +200,7 @@ type verifStackCfg struct {
 	verify        bool
 	passThrough   bool
 	mergeBuf      int64
+	mergeWorkers  int
 	asyncSize     int64
 	timeout       time.Duration
 	store         metadata.Store
@@ -235,6 +236,9 @@ type verifStack struct {
 	files   []*verifFile
 	byName  map[string]int      // clean real path -> index into files
 	keyInfo map[string][3]int64 // cache key -> (fi, off, size)
+	// faulted: a registry fault was injected at some point; a failing Open switches passthrough off for
+	// the whole mount (by design), so a missing fd is only a finding while this is false
+	faulted bool
 }
 
 func verifGenStackCfg(rnd *verifutil.Rand) verifStackCfg {
@@ -304,6 +308,9 @@ func verifNewStack(t *testing.T, ents []verifc02.Ent, opts verifc02.BuildOpts, c
 	fcfg.PassThrough = cfg.passThrough
 	fcfg.MergeBufferSize = cfg.mergeBuf
 	fcfg.MergeWorkerCount = 3
+	if cfg.mergeWorkers > 0 {
+		fcfg.MergeWorkerCount = cfg.mergeWorkers
+	}
 	s.res, err = NewResolver(s.root, task.NewBackgroundTaskManager(2, time.Millisecond), fcfg, nil, cfg.store, OverlayOpaqueAll, nil)
 	if err != nil {
 		s.close()
@@ -488,6 +495,9 @@ func (s *verifStack) opRead(out *verifutil.Out, p string, off int64, n int, faul
 	}
 	f := s.files[fi]
 	s.wc.reset()
+	if fault != verifNoFault {
+		s.faulted = true
+	}
 	s.rt.Set(fault == verifFailFetch)
 	got, errno := s.tree.Read(p, off, n)
 	s.rt.Set(false)
@@ -584,6 +594,9 @@ func (s *verifStack) opLookup(out *verifutil.Out, fi int, x int64) {
 // through BackgroundFetch when bg is set).
 func (s *verifStack) opCacheFiles(out *verifutil.Out, limit int64, bg bool, fault verifFault) bool {
 	s.wc.reset()
+	if fault != verifNoFault {
+		s.faulted = true
+	}
 	s.rt.Set(fault == verifFailFetch)
 	var err error
 	if bg {
@@ -776,6 +789,63 @@ func (s *verifStack) opInterleave(out *verifutil.Out, rnd *verifutil.Rand, regs 
 	s.resync(out)
 }
 
+// opPassthrough opens path p the way FUSE passthrough does — node.Open merges the file's chunks into
+// ONE backing file of the chunk cache (GetPassthroughFd: batches of merge_buffer_size, several
+// workers, chunks taken from the chunk cache where present) and hands its fd to the kernel — and
+// compares the WHOLE content of that fd with the tar.  Oracle only.
+func (s *verifStack) opPassthrough(out *verifutil.Out, p string, dropMerged bool) {
+	fi, ok := s.fileOf(p)
+	if !ok {
+		return
+	}
+	f := s.files[fi]
+	if dropMerged {
+		// the merged backing file is cached under (id, 0, total size): drop it so that it is rebuilt
+		s.wc.evict(reader.VerifC02GenID(f.id, 0, f.size))
+	}
+	fh, errno := s.tree.Open(p)
+	if errno != 0 {
+		out.Fail("open-failed", fmt.Sprintf("open %q: %v", p, errno))
+		return
+	}
+	defer verifc02.ReleaseFH(fh)
+	lf, isFile := fh.(*file)
+	fd, has := -1, false
+	if isFile {
+		fd, has = lf.PassthroughFd()
+	}
+	ctx := fmt.Sprintf("file %q (size %d, %d chunks) [%s | %s mergebuf=%d workers=%d]", p, f.size, len(f.chunks), s.opts, s.cfg, s.cfg.mergeBuf, s.cfg.mergeWorkers)
+	out.Comment(fmt.Sprintf("passthrough %d fd=%v drop=%v", fi, has, dropMerged))
+	if !has {
+		// passthrough needs a direct-mode directory cache; with it and a healthy registry the fd must be there
+		if s.cfg.passThrough && s.cfg.fsCache == "dir" && s.cfg.direct && f.size > 0 && !s.faulted {
+			out.Fail("passthrough-fd-missing", ctx+": node.Open did not provide a passthrough fd")
+		}
+		out.Count("passthrough-nofd")
+		return
+	}
+	buf := make([]byte, f.size+16)
+	total := 0
+	for total < len(buf) {
+		n, err := syscall.Pread(fd, buf[total:], int64(total))
+		if n <= 0 || err != nil {
+			break
+		}
+		total += n
+	}
+	got := buf[:total]
+	if int64(total) != f.size {
+		out.Fail("passthrough-length-differs", fmt.Sprintf("%s: the passthrough file holds %d bytes, the tar %d", ctx, total, f.size))
+	} else if !bytes.Equal(got, f.data) {
+		first := 0
+		for first < total && got[first] == f.data[first] {
+			first++
+		}
+		out.Fail("passthrough-bytes-differ", fmt.Sprintf("%s: the passthrough file differs from the tar payload from byte %d on", ctx, first))
+	}
+	out.Count("passthrough-fd")
+}
+
 // dropHTTPCache removes every file of the compressed-blob directory cache (cache loss below the
 // chunk cache; oracle only).
 func (s *verifStack) dropHTTPCache(out *verifutil.Out) {
@@ -877,7 +947,11 @@ func verifHistory(t *testing.T, out *verifutil.Out, rnd *verifutil.Rand, s *veri
 	}
 	missing := []string{"nope", "a/nope", "a/c/d/e/f", "f/x", ".prefetch.landmark", ".no.prefetch.landmark", "stargz.index.json"}
 	for i := 0; i < nops || len(pending) > 0; i++ {
-		kind := rnd.Pick(14, 3, 5, 2, 4, 2, 1, 2, 1, 1, 1, 2)
+		ptw := 0
+		if s.cfg.passThrough {
+			ptw = 6
+		}
+		kind := rnd.Pick(14, 3, 5, 2, 4, 2, 1, 2, 1, 1, 1, 2, ptw)
 		if i >= nops {
 			kind = 2
 		}
@@ -988,6 +1062,13 @@ func verifHistory(t *testing.T, out *verifutil.Out, rnd *verifutil.Rand, s *veri
 				s.resync(out)
 			}
 			shape += "c"
+		case 12: // FUSE passthrough: the merged backing file against the tar
+			if len(regs) == 0 {
+				continue
+			}
+			p := regs[rnd.Intn(len(regs))]
+			verifWatch(out, "passthrough", 120*time.Second, func() { s.opPassthrough(out, p, rnd.Intn(3) != 0) })
+			shape += "P"
 		case 11: // a second reader between a cache hit and its use
 			if !modelled || len(regs) == 0 {
 				continue
@@ -1155,6 +1236,8 @@ func TestVerifC02(t *testing.T) {
 		s.close()
 	}
 
+	verifPassthroughScenarios(t, out, rnd)
+
 	for h := 0; h < nhist; h++ {
 		chunkHint := []int64{7, 33, 64, 500}[rnd.Intn(4)]
 		ents := verifc02.GenTar(rnd, verifc02.GenParams{MaxEntries: 12, ChunkHint: chunkHint, MaxFile: 3000})
@@ -1164,11 +1247,16 @@ func TestVerifC02(t *testing.T) {
 			opts.Prioritized = nil
 		}
 		cfg := verifGenStackCfg(rnd)
-		if rnd.Intn(8) == 0 {
+		if rnd.Intn(6) == 0 {
+			// passthrough needs a direct-mode directory cache (otherwise it switches itself off)
 			cfg.passThrough = true
 			cfg.fsCache = "dir"
-			cfg.direct = false
-			cfg.mergeBuf = []int64{1, 10, 64, 419430400}[rnd.Intn(4)]
+			cfg.direct = rnd.Intn(5) != 0
+			cfg.mergeWorkers = 1 + rnd.Intn(4)
+			// files of equal chunks, merge buffer of 2-4 chunks (batched path) or odd sizes (sequential fallback)
+			opts.ChunkSize = int(chunkHint)
+			opts.MinChunkSize = []int{0, 0, 100}[rnd.Intn(3)]
+			cfg.mergeBuf = []int64{2 * chunkHint, 3 * chunkHint, 4 * chunkHint, 1, 10, 419430400}[rnd.Intn(6)]
 		}
 		if rnd.Intn(10) == 0 {
 			cfg.syncAdd = false
@@ -1179,6 +1267,60 @@ func TestVerifC02(t *testing.T) {
 			continue
 		}
 		verifHistory(t, out, rnd, s, nops, fmt.Sprintf("history %d", h))
+		s.close()
+	}
+}
+
+// verifPassthroughScenarios: files of 4-12 equal chunks, merge buffers of 2-4 chunks, 1-4 workers; some
+// chunks get into the chunk cache first (partial reads through a first handle, or a prefetch-store),
+// then the merged backing file is dropped and rebuilt, and its whole content is compared with the tar;
+// repeated after evictions.
+func verifPassthroughScenarios(t *testing.T, out *verifutil.Out, rnd *verifutil.Rand) {
+	for k := 0; k < 8; k++ {
+		chunk := []int64{16, 7, 64, 33}[k%4]
+		nchunks := []int64{4, 8, 12, 6, 9, 5, 10, 7}[k]
+		size := chunk * nchunks
+		if k%3 == 2 {
+			size += chunk / 2 // a short last chunk
+		}
+		ents := []verifc02.Ent{verifReg("big", size, int64(20+k)), verifReg("d/other", chunk*3, int64(40+k)), verifReg("small", 3, 60)}
+		ents[0].Kind = k % 2
+		opts := verifc02.BuildOpts{ChunkSize: int(chunk), Zstd: k%4 == 3}
+		cfg := verifGenStackCfg(rnd)
+		cfg.passThrough, cfg.fsCache, cfg.direct, cfg.syncAdd, cfg.verify = true, "dir", true, true, k%5 != 4
+		cfg.regChunk = []int64{16, 64, 512}[k%3]
+		cfg.mergeBuf = chunk * []int64{2, 3, 4}[k%3]
+		cfg.mergeWorkers = 1 + k%4
+		s, err := verifNewStack(t, ents, opts, cfg)
+		if err != nil {
+			out.Fail("scenario-setup-failed", fmt.Sprintf("passthrough %d: %v", k, err))
+			continue
+		}
+		out.Comment(fmt.Sprintf("passthrough scenario %d: %d chunks of %d, mergebuf %d, %d workers, %s", k, nchunks, chunk, cfg.mergeBuf, cfg.mergeWorkers, s.cfg))
+		s.meta.Out = out
+		if k%2 == 1 {
+			// chunks cached by a prefetch-store before the first open
+			s.l.verifiableReader.Cache(reader.WithFilter(func(int64) bool { return true }))
+			for i := int64(0); i < nchunks; i += 2 {
+				s.wc.evict(reader.VerifC02GenID(s.files[s.byName["big"]].id, i*chunk, chunk))
+			}
+		}
+		s.opPassthrough(out, "big", false)
+		// partial on-demand reads put single chunks into the chunk cache
+		for _, c := range []int64{0, 1, nchunks / 2, nchunks - 1} {
+			s.opRead(out, "big", c*chunk+1, int(chunk/2+1), verifNoFault, false)
+		}
+		s.opPassthrough(out, "big", true)
+		// evict some chunks, read others, rebuild again
+		for i := int64(1); i < nchunks; i += 3 {
+			s.wc.evict(reader.VerifC02GenID(s.files[s.byName["big"]].id, i*chunk, chunk))
+		}
+		s.opRead(out, "big", 0, int(2*chunk), verifNoFault, false)
+		s.opPassthrough(out, "big", true)
+		s.opPassthrough(out, "d/other", true)
+		s.opPassthrough(out, "small", false)
+		s.opPassthrough(out, "big", false)
+		out.Distinct(fmt.Sprintf("passthrough/%d/%d/%d/%d/%s", chunk, nchunks, cfg.mergeBuf, cfg.mergeWorkers, s.cfg))
 		s.close()
 	}
 }
